@@ -108,7 +108,9 @@ class C09(Property):
         last = [0] * ncons
         events.append(["push", 0])
         for _ in range(n):
-            if rnd.random() < 0.45:
+            if rnd.random() < 0.06:
+                events.append(["refuse", rnd.randrange(ncons)])
+            elif rnd.random() < 0.45:
                 t += rnd.choice([1, 1, 2, 3, 5, 8, 30])
                 events.append(["push", t])
             else:
@@ -199,6 +201,17 @@ class C09(Property):
                 for c in range(ncons):
                     if pb[c]:
                         last_req[endpoint[c]] = t  # push-based adapters pull at every notification
+            elif ev[0] == "refuse":
+                c = ev[1]
+                if pb[c] is not None or any(nd["kind"] == "dfix" for nd in paths[c]):
+                    continue
+                try:
+                    inputs[c].pull_data(slots.t(hist.newest + 3))
+                    out.viol("future_request_served", f"consumer {c}: request beyond the newest publication served", spec=spec)
+                    return out
+                except fm.FinamTimeError:
+                    out.count("refused_future_requests")
+                continue
             else:
                 _, c, tq = ev
                 if not hist.in_range(tq):
